@@ -105,6 +105,8 @@ PROPS["C19"] = {
         "MsiProofs.C19.gen_table_agrees", "MsiProofs.C19.printer_shape", "MsiProofs.C19.spellings",
         "MsiProofs.C19.render_toks", "MsiProofs.C19.read_print", "MsiProofs.C19.read_print_in_context",
         "MsiProofs.C19.read_print_eval",
+        "MsiProofs.C19.read_text_print", "MsiProofs.C19.lex_print", "MsiProofs.C19.good_build",
+        "MsiProofs.C19.printed_means_same",
     ],
     "level_text": "Lean: the printer model (format_with_precedence) is parametric in precedences and spellings regenerated from expr.rs; "
                   "theorems: READER ROUND TRIP for every tree (no depth bound): the token form of the printer spells exactly the printed text (render_toks) "
@@ -114,13 +116,15 @@ PROPS["C19"] = {
                   "tie: real to_string() vs the model's printer on every parent/child operator pair, all small trees and random deep trees; "
                   "oracle: an independent precedence-climbing reader (harness/src/reader.rs) reads the REAL text back and the result is "
                   "re-evaluated on sample rows against the original expression.",
-    "level_note": "Trusted: Lean kernel, translator, hand model of the printer, the Rust reader used as oracle. The round-trip theorem is at token level: the lexical layer "
-                  "(characters -> tokens: identifiers, numbers, quoted strings, '-' by position) and the four query printers are tied by the independent Rust "
-                  "reader on the real text, not by a Lean theorem.",
+    "level_note": "Trusted: Lean kernel, translator, hand model of the printer, the Rust reader used as oracle. The round trip is proved from characters (read_text_print: lexer with the grammar's "
+                  "lexical rules, then the ladder reader) on the domain Good: column names are grammar identifiers (not keywords), a prefix minus is not applied "
+                  "directly to a non-negative integer literal (never produced by the API's constructors: good_build), and literals print without escapes. "
+                  "The driver re-checks readText on every text it is diffed on. The four query printers (SELECT/INSERT/UPDATE/DELETE, joins) are modelled and "
+                  "diffed but their reader is the independent Rust reader on the real text, not a Lean theorem.",
     "technique": "Lean 4 table theorems over regenerated precedences + printer correspondence + independent reader oracle",
     "rule": "every parent/child operator pair (18x18) on either side; all depth-1 trees over 7 leaves; seeded depth-2 and random trees to depth 5. "
             "non-trivial = distinct printed texts of depth >= 2",
-    "trusted_base": ["model MsiModel/Expr.lean::fmtP", "Gen/Expr.lean regenerated from src/internal/expr.rs", "harness/src/reader.rs (ladder reader)"],
+    "trusted_base": ["model MsiModel/Expr.lean::fmtP", "Gen/Expr.lean regenerated from src/internal/expr.rs", "the reader MsiModel/ExprLex.lean + ExprRead.lean as the reading of 'the project's query grammar' (ladder and lexical rules written out from examples/msiquery.pest; binary levels left-associative)", "harness/src/reader.rs (independent ladder reader on the real text, also for queries)"],
     "assumptions": ["string literals without characters needing escapes; column names that are not keywords (the property's domain)"],
 }
 PROPS["C14"] = {
